@@ -20,14 +20,14 @@ type timeT = time.Time
 // Profile weights the operation alphabet of a case.
 type Profile struct {
 	Send, Recv, RecvDup, Ack, AckDup, Timeout, TimeoutEarly, TimeoutReceived, RecvAfterTimeout int
-	Replay, Mutate, AsyncAck, Commit, Close, OutOfOrder, Redirect, Boundary                   int
+	Replay, Mutate, AsyncAck, Commit, Close, OutOfOrder, Redirect, Boundary, SendBoundary     int
 	SoonPct                                                                                    int // % of sends with a soon-expiring timeout
 	MultiPayloadPct                                                                            int
 }
 
 func DefaultProfile() Profile {
 	return Profile{Send: 20, Recv: 14, RecvDup: 6, Ack: 10, AckDup: 5, Timeout: 6, TimeoutEarly: 3, TimeoutReceived: 3, RecvAfterTimeout: 3,
-		Replay: 8, Mutate: 12, AsyncAck: 4, Commit: 3, Close: 0, OutOfOrder: 3, Redirect: 3, Boundary: 4, SoonPct: 35, MultiPayloadPct: 30}
+		Replay: 8, Mutate: 12, AsyncAck: 4, Commit: 3, Close: 0, OutOfOrder: 3, Redirect: 3, Boundary: 4, SendBoundary: 3, SoonPct: 35, MultiPayloadPct: 30}
 }
 
 func (s *Sim) pick(f func(p *Pkt) bool) *Pkt {
@@ -240,6 +240,7 @@ func (s *Sim) Step(pr Profile) string {
 		}},
 		{pr.Close, func() string { return s.closeOp() }},
 		{pr.Redirect, func() string { return s.redirectOp() }},
+		{pr.SendBoundary, func() string { return s.sendBoundaryOp() }},
 		{pr.Boundary, func() string { return s.boundaryOp() }},
 	}
 	total := 0
@@ -354,6 +355,49 @@ func (s *Sim) redirectOp() string {
 	o := s.Relay(q.dst(), msg, &opMeta{kind: "recv", pkt: q, hostile: "redirect-to-" + other.Name})
 	s.C.Inc("redirects")
 	return "redirect-" + okStr(o)
+}
+
+// sendBoundaryOp sends with a timeout exactly at / next to each send-time guard of C08.
+func (s *Sim) sendBoundaryOp() string {
+	l := s.Lanes[s.R.Intn(len(s.Lanes))]
+	src := s.R.Intn(2)
+	if !s.laneOpen(l) && !l.V2 {
+		return ""
+	}
+	th, tt := clienttypes.ZeroHeight(), uint64(0)
+	label := ""
+	vh, vt, ok := s.clientView(l, src)
+	if !ok {
+		return ""
+	}
+	if l.V2 {
+		bt := uint64(s.W.Coord.CurrentTime.Unix())
+		ct := uint64(vt.Unix())
+		opts := []struct {
+			l string
+			v uint64
+		}{{"bt-1", bt - 1}, {"bt", bt}, {"bt+1", bt + 1}, {"bt+24h", bt + 86400}, {"bt+24h+1", bt + 86401}, {"client-time", ct}, {"client-time+1", ct + 1}}
+		o := opts[s.R.Intn(len(opts))]
+		tt, label = o.v, o.l
+	} else if s.R.Bool() {
+		d := int64(s.R.Intn(3)) - 1
+		th = clienttypes.NewHeight(vh.RevisionNumber, uint64(int64(vh.RevisionHeight)+d))
+		label = fmt.Sprintf("client-height%+d", d)
+	} else {
+		d := int64(s.R.Intn(3)) - 1
+		tt = uint64(vt.UnixNano() + d)
+		label = fmt.Sprintf("client-time%+dns", d)
+	}
+	s.forceTH, s.forceTT = &th, &tt
+	p := s.Send(l, src, "ok", false, 1)
+	s.forceTH, s.forceTT = nil, nil
+	s.C.Inc("send_boundary_attempts")
+	if p == nil {
+		s.C.Inc("send_boundary_rejected")
+		return "send-boundary-" + label + "-rej"
+	}
+	s.C.Inc("send_boundary_accepted")
+	return "send-boundary-" + label + "-ok"
 }
 
 // boundaryOp relays a receive so that it executes exactly at (or one block before) the packet's timeout height / time.
